@@ -555,7 +555,6 @@ func c12IndexRemap(c *Ctx, pk *packages.Package) {
 	}
 }
 
-
 // enclosingIf returns the innermost if statement whose body contains n.
 func enclosingIf(p *Prog, n ast.Node) *ast.IfStmt {
 	for q := p.Parent(n); q != nil; q = p.Parent(q) {
